@@ -8,7 +8,7 @@ import warnings as _warnings
 from . import smt
 from .terms import (And, Or, Not, Implies, Ite, Eq, asV, asB, asI, asS, mkB, mkI, mkS, TRUE, FALSE,
                     const_term, seq_of_terms)
-from .values import (Val, PyC, PyList, SymObj, Closure, BM, Exc, OutOfSubset, fresh_name)
+from .values import (Val, PyC, PyList, SymObj, SDict, Closure, BM, Exc, OutOfSubset, fresh_name)
 from .exprs import is_exc
 
 
@@ -36,6 +36,8 @@ class BuiltinMixin:
     # ---- simple ones
     def b_len(self, st, args, kwargs, node):
         (x,) = args
+        if isinstance(x, SDict):
+            x = self.lift(x)
         if isinstance(x, PyList):
             return [(st, PyC(len(x.items)))]
         if isinstance(x, PyC):
@@ -194,6 +196,8 @@ class BuiltinMixin:
             return [(st, PyList(x.items, "list"))]
         if isinstance(x, PyC) and isinstance(x.obj, (tuple, list)):
             return [(st, PyList([PyC(i) for i in x.obj], "list"))]
+        if isinstance(x, PyC) and type(x.obj).__name__ in ("odict_values", "dict_values", "mappingproxy"):
+            return [(st, PyList([PyC(i) for i in list(x.obj)], "list"))]
         lx = self.lift(x)
         if lx.kind in ("list", "tuple", "set"):
             return [(st, Val(f"(v_list (seqof {asV(lx)}))", kind="list", fresh=TRUE))]
@@ -285,11 +289,13 @@ class BuiltinMixin:
 
     def b_dict(self, st, args, kwargs, node):
         if not args and not kwargs:
-            return [(st, Val("(v_dict (as seq.empty (Seq V)))", kind="dict", fresh=TRUE))]
+            return [(st, SDict({}))]
         if not args:
             items = [f"(v_pair {smt.sstr(k)} {asV(self.lift(v))})" for k, v in kwargs.items()]
             return [(st, Val(f"(v_dict {seq_of_terms(items)})", kind="dict", fresh=TRUE))]
         x = args[0]
+        if isinstance(x, PyList) and all(isinstance(i, PyList) and len(i.items) == 2 and isinstance(i.items[0], PyC) and isinstance(i.items[0].obj, str) for i in x.items):
+            return [(st, SDict({i.items[0].obj: (TRUE, i.items[1]) for i in x.items}))]
         if isinstance(x, PyList) and all(isinstance(i, PyList) and len(i.items) == 2 for i in x.items):
             pairs = []
             for i in x.items:
@@ -441,6 +447,16 @@ class BuiltinMixin:
         if name == "join":
             r = self.fresh_val("join", sort="S")
             return [(st, r)]
+        if isinstance(recv, SDict) and recv.term is None and name == "get" and isinstance(args[0], PyC) and isinstance(args[0].obj, str):
+            dflt = args[1] if len(args) > 1 else PyC(None)
+            if args[0].obj not in recv.entries:
+                return [(st, dflt)]
+            cnd, val = recv.entries[args[0].obj]
+            if cnd == TRUE:
+                return [(st, val)]
+            return [(st, Val(Ite(cnd, asV(self.lift(val)), asV(self.lift(dflt)))))]
+        if isinstance(recv, SDict):
+            recv = self.lift(recv)
         if isinstance(recv, dict):
             if name == "get":
                 k = args[0].obj
